@@ -1,6 +1,7 @@
 /-
   C14  No credential reaches the user agent.
 -/
+import AuthProofs.StateInventory
 import AuthProofs.Ladder
 namespace AuthProps.C14
 open AuthModel AuthModel.Oidc
@@ -36,6 +37,9 @@ theorem cookie_and_logout_independent_of_secret (cfg : Cfg) (secret' uri : Str) 
 theorem ok_adds_only_tokens (cfg : Cfg) (prev : Headers) (t : Tokens) :
     allow cfg prev t = { code := cOK, message := [], http := .ok (prev ++ encodeTokens cfg t) } := rfl
 
+/-- NO HIDDEN STATE: the model treats a check as a function of (configuration, request, store answers, clock, IdP and key-source answers, entropy); that is a faithful reading of the code only if nothing else survives from one check to the next. Regenerated on every run: every package-level variable and struct field of internal/server, internal/authz, internal/http, internal/oidc is the classified expectation, and handlers, filter, HTTP helpers and the Redis store own no mutable state (no verdict cache, handler cache, object pool, single-flight group or per-process copy of session data). -/
+theorem no_hidden_state : CheckPathInventory := check_path_inventory
+
 end AuthProps.C14
 
 #print axioms AuthProps.C14.answers_are_catalogued
@@ -44,3 +48,4 @@ end AuthProps.C14
 #print axioms AuthProps.C14.fixed_denials_constant
 #print axioms AuthProps.C14.cookie_and_logout_independent_of_secret
 #print axioms AuthProps.C14.ok_adds_only_tokens
+#print axioms AuthProps.C14.no_hidden_state
